@@ -196,6 +196,16 @@ def values_equal(it, a, b):
     """Python == on values: bool or z3 BoolRef."""
     if a is None or b is None:
         return a is None and b is None
+    # pydicom BaseTag: an int that also compares equal to the (group, element) pair
+    ta, tb = getattr(a, 'is_dicom_tag', False), getattr(b, 'is_dicom_tag', False)
+    if ta or tb:
+        def as_int(x):
+            if isinstance(x, tuple) and len(x) == 2 and all(isinstance(y, int) for y in x):
+                return (x[0] << 16) | x[1]
+            return int(x) if isinstance(x, int) else None
+        ia, ib = as_int(a), as_int(b)
+        if ia is not None and ib is not None:
+            return ia == ib
     if isinstance(a, bool) and isinstance(b, bool):
         return a == b
     if is_intlike(a) and is_intlike(b):
